@@ -1349,4 +1349,145 @@ example : ([((60 : Int), 'y'), (-60, 'm'), (60, 'b')] : List (Int × Char)).leng
     (∀ p ∈ ([((60 : Int), 'y'), (-60, 'm'), (60, 'b')] : List (Int × Char)), (-60 ≤ p.1 ∧ p.1 ≤ 60) ∧ LowerUnit p.2) ∧
     tenors [(60, 'y'), (-60, 'm'), (60, 'b')] = "60y-60m60b" := by decide
 
+/-! ### round k3: the VALUE of a compound tenor in closed form (reviews t3 §C09.1, v3 §C09-3.2) -/
+
+/-- `datetime(y', m', d)` with the day rolled over into the following month when month `(y', m')` is shorter: the value the
+statement gives to a month / quarter / year bump ("keeping the day of month when it exists and otherwise rolling the excess days
+into the following month") -/
+def keepOrRoll (y' m' d : Nat) : Int :=
+  if d ≤ dim y' m' then mkDate y' m' d else mkDate (nextMonth y' m').1 (nextMonth y' m').2 (d - dim y' m')
+
+/-- the closed form of ONE part `'<n><unit>'`, written WITHOUT the bump machinery (no tokenizer, no unit table, no `_ymd`, no
+range check): fixed-length units add `n` times their length; `b` adds the weekday offset `bOff` of the start's weekday (whole days, the
+time of day stays); `m` / `q` / `y` (1 / 3 / 12 months per count) go to midnight of the calendar date `(y, m, d)` of the start — `fromOrd`
+of its ordinal — with the month count added (`Gen.ym` normalises year and month), day kept or rolled -/
+def stepClosed (t : Int) (p : Int × Char) : Int :=
+  match unitUs p.2 with
+  | some us => t + p.1 * us
+  | none =>
+    if p.2 = 'b' then t + bOff (wdOf t) p.1 * DAYUS else
+    let k : Int := if p.2 = 'm' then 1 else if p.2 = 'q' then 3 else 12
+    let c := fromOrd (ordOf t).toNat
+    let ym := Gen.ym (c.y : Int) ((c.m : Int) + k * p.1)
+    keepOrRoll ym.1.toNat ym.2.toNat c.d
+
+/-- `date_of_instant_wide` with the date named: it is `fromOrd` of the instant's ordinal -/
+theorem date_of_instant_fromOrd (t : Int) (h0 : 640000 * DAYUS ≤ t) (h1 : t < 890000 * DAYUS) :
+    Valid (fromOrd (ordOf t).toNat).y (fromOrd (ordOf t).toNat).m (fromOrd (ordOf t).toNat).d ∧
+    1700 ≤ (fromOrd (ordOf t).toNat).y ∧ (fromOrd (ordOf t).toNat).y < 2500 ∧
+    t - todOf t = mkDate (fromOrd (ordOf t).toNat).y (fromOrd (ordOf t).toNat).m (fromOrd (ordOf t).toNat).d := by
+  have ho : 640001 ≤ ordOf t ∧ ordOf t ≤ 890000 := by unfold ordOf DAYUS at *; omega
+  have hn : ((ordOf t).toNat : Int) = ordOf t := Int.toNat_of_nonneg (by omega)
+  obtain ⟨v, e⟩ := ord_fromOrd_all (ordOf t).toNat (by omega) (by omega)
+  have hb := ord_bounds _ _ _ v.toU
+  generalize fromOrd (ordOf t).toNat = p at *
+  have hv := v
+  unfold Valid at hv
+  have y0 : 1700 ≤ p.y := by
+    by_cases h : p.y < 1700
+    · have := dby_mono (p.y + 1) 1700 (by omega) (by omega)
+      have c : dby 1700 = 620547 := by decide
+      rw [c] at this; omega
+    · omega
+  have y1 : p.y < 2500 := by
+    by_cases h : 2500 ≤ p.y
+    · have := dby_mono 2500 p.y (by omega) h
+      have c : dby 2500 = 912741 := by decide
+      rw [c] at this; omega
+    · omega
+  refine ⟨v, y0, y1, ?_⟩
+  have s := split_t t
+  unfold mkDate
+  rw [e, hn]; omega
+
+/-- ONE part, on the widened window of `part_total`: the value IS the closed form -/
+theorem part_value (c : Char) (hc : LowerUnit c) (t n : Int) (h0 : 640000 * DAYUS ≤ t) (h1 : t < 890000 * DAYUS)
+    (hn : -60 ≤ n ∧ n ≤ 60) : bumpStr t (tenor n c) = .ok (stepClosed t (n, c)) := by
+  have monthly : ∀ (c : Char) (k : Int), ((c = 'm' ∧ k = 1) ∨ (c = 'q' ∧ k = 3) ∨ (c = 'y' ∧ k = 12)) →
+      bumpStr t (tenor n c) = .ok (keepOrRoll (Gen.ym ((fromOrd (ordOf t).toNat).y : Int) (((fromOrd (ordOf t).toNat).m : Int) + k * n)).1.toNat
+        (Gen.ym ((fromOrd (ordOf t).toNat).y : Int) (((fromOrd (ordOf t).toNat).m : Int) + k * n)).2.toNat (fromOrd (ordOf t).toNat).d) := by
+    intro c k hck
+    obtain ⟨v, y0, y1, e⟩ := date_of_instant_fromOrd t h0 h1
+    generalize fromOrd (ordOf t).toNat = P at *
+    have hv := v
+    unfold Valid at hv
+    have hk : k = 1 ∨ k = 3 ∨ k = 12 := by rcases hck with h | h | h <;> simp [h.2]
+    have hcc : c = 'm' ∨ c = 'q' ∨ c = 'y' := by rcases hck with h | h | h <;> simp [h.1]
+    have hN := ym_normal (P.y : Int) ((P.m : Int) + k * n)
+    have hY : (P.y : Int) - 61 ≤ (Gen.ym (P.y : Int) ((P.m : Int) + k * n)).1 ∧ (Gen.ym (P.y : Int) ((P.m : Int) + k * n)).1 ≤ P.y + 61 := by
+      unfold Gen.ym; simp only []
+      rcases hk with rfl | rfl | rfl <;> omega
+    generalize hp : Gen.ym (P.y : Int) ((P.m : Int) + k * n) = p at hN hY ⊢
+    obtain ⟨Y, M⟩ := p
+    simp only at hN hY ⊢
+    have hym : Gen.ym (P.y : Int) ((P.m : Int) + k * n) = ((Y.toNat : Int), (M.toNat : Int)) := by
+      rw [hp, Int.toNat_of_nonneg (by omega), Int.toNat_of_nonneg (by omega)]
+    rw [month_resets_time_str c hcc, e]
+    exact month_keep_or_roll_str c k hck P.y P.m P.d v n Y.toNat M.toNat hym (by omega)
+  have fixed : ∀ (c : Char) (us : Int), LowerUnit c → unitUs c = some us → bumpStr t (tenor n c) = .ok (stepClosed t (n, c)) := by
+    intro c us hc hus
+    obtain ⟨r, hr, _, _⟩ := part_total c hc t n h0 h1 hn
+    have hs : stepClosed t (n, c) = t + n * us := by unfold stepClosed; simp only [hus]
+    rw [hs, hr]
+    rw [fixed_exact_str c us hus, checkRange_ok] at hr
+    rw [hr.2]
+  rcases lowerUnit_cases c hc with rfl | rfl | rfl | rfl | rfl | rfl | rfl | rfl | rfl
+  · exact fixed 'd' _ hc rfl
+  · exact fixed 'w' _ hc rfl
+  · exact fixed 'h' _ hc rfl
+  · exact fixed 'n' _ hc rfl
+  · exact fixed 's' _ hc rfl
+  · have hs : stepClosed t (n, 'b') = t + bOff (wdOf t) n * DAYUS := by
+      unfold stepClosed; have : unitUs 'b' = none := rfl
+      simp only [this, if_true]
+    rw [hs]
+    exact b_total_value t n (by unfold DAYUS at *; omega) (by unfold DAYUS MAXUS at *; omega) hn
+  · have hs := monthly 'm' 1 (Or.inl ⟨rfl, rfl⟩)
+    rw [hs]; unfold stepClosed; have : unitUs 'm' = none := rfl
+    simp only [this]; rfl
+  · have hs := monthly 'q' 3 (Or.inr (Or.inl ⟨rfl, rfl⟩))
+    rw [hs]; unfold stepClosed; have : unitUs 'q' = none := rfl
+    simp only [this]; rfl
+  · have hs := monthly 'y' 12 (Or.inr (Or.inr ⟨rfl, rfl⟩))
+    rw [hs]; unfold stepClosed; have : unitUs 'y' = none := rfl
+    simp only [this]; rfl
+
+theorem compound_value_aux (ps : List (Int × Char)) : ∀ (j : Nat), j + ps.length ≤ 3 →
+    (∀ p ∈ ps, (-60 ≤ p.1 ∧ p.1 ≤ 60) ∧ LowerUnit p.2) → ∀ t : Int,
+    (693595 - 24000 * (j : Int)) * DAYUS ≤ t → t < (839692 + 24000 * (j : Int)) * DAYUS →
+    dtBump t (ps.map fun p => .str (tenor p.1 p.2)) = .ok (ps.foldl stepClosed t) := by
+  induction ps with
+  | nil => intro j _ _ t _ _; rfl
+  | cons p ps ih =>
+    intro j hl hp t h0 h1
+    have hj : j + ps.length + 1 ≤ 3 := by simpa [Nat.add_assoc] using hl
+    have hj3 : (j : Int) ≤ 2 := by omega
+    have g0 : 640000 * DAYUS ≤ t := by unfold DAYUS at *; omega
+    have g1 : t < 890000 * DAYUS := by unfold DAYUS at *; omega
+    obtain ⟨r1, e1, a1, b1⟩ := part_total p.2 (hp p (by simp)).2 t p.1 g0 g1 (hp p (by simp)).1
+    have v1 := part_value p.2 (hp p (by simp)).2 t p.1 g0 g1 (hp p (by simp)).1
+    have er : r1 = stepClosed t p := by rw [e1] at v1; cases v1; rfl
+    have e := ih (j + 1) (by omega) (fun q hq => hp q (by simp [hq])) r1
+      (by unfold DAYUS at *; push_cast; omega) (by unfold DAYUS at *; push_cast; omega)
+    simp only [List.map_cons, dtBump, bumpOne, e1, List.foldl_cons]
+    rw [← er]; exact e
+
+/-- **the value of a compound tenor** on the whole quantifier: for every instant `t` of 1900-01-01 … 2299-12-31 (any time of day) and every
+tenor of at most three parts with |n| ≤ 60 and any of the nine unit letters, `dt_bump(t, '<n1><u1><n2><u2><n3><u3>')` IS the left fold of the
+three single-part closed forms (`stepClosed`: `t + n·unit`, the weekday offset `bOff`, keep-or-roll from the calendar date of the running
+instant) — "apply their parts left to right" with each part's value given by arithmetic, not by the model's own bump function.
+`compound_total` (existence, window) is the corollary. -/
+theorem compound_value (t : Int) (ps : List (Int × Char)) (h0 : mkDate 1900 1 1 ≤ t) (h1 : t < mkDate 2300 1 1)
+    (hl : ps.length ≤ 3) (hp : ∀ p ∈ ps, (-60 ≤ p.1 ∧ p.1 ≤ 60) ∧ LowerUnit p.2) :
+    bumpStr t (tenors ps) = .ok (ps.foldl stepClosed t) ∧
+    dtBump t (ps.map fun p => .str (tenor p.1 p.2)) = .ok (ps.foldl stepClosed t) := by
+  rw [mkDate_1900] at h0; rw [mkDate_2300] at h1
+  have e := compound_value_aux ps 0 (by omega) hp t (by simpa using h0) (by simpa using h1)
+  exact ⟨by rw [tenors_left_to_right t ps (fun p h => (hp p h).2)]; exact e, e⟩
+
+/-- the statement's own example `'1y-3m2d'` from 2020-01-31: one year on (2021-01-31), three months back (31 Oct 2020), two days on -/
+example : [((1 : Int), 'y'), (-3, 'm'), (2, 'd')].foldl stepClosed (mkDate 2020 1 31) = mkDate 2020 11 2 := by decide +kernel
+/-- … and a roll: `'1m1b'` from Sat 2020-01-31 09:00 — February has no 31st: 2 March (a Monday, midnight), then one business day -/
+example : [((1 : Int), 'm'), (1, 'b')].foldl stepClosed (mkDate 2020 1 31 + 32400000000) = mkDate 2020 3 3 := by decide +kernel
+
 end Pyg.Props.C09
